@@ -118,11 +118,12 @@ def hostile_devices(run):
             return "ok"
         dev = refdev.RefDevice(refdev.simple_chans(2), flags=3, policy=policy, streaming=True)
         sframe = rc.wire(rc.ID_STREAM, [0])
-        aframe = rc.wire(rc.ID_ACK, [0, 0, 0, 0])
+        aframe = rc.wire(rc.ID_CMNINFO, [2, 3, 0])     # (ACK frames would be dropped by the receive thread during connect)
 
         def talker():
             n = 0
-            while not stop.is_set() and n < 60000:
+            t_end = time.time() + 90.0
+            while not stop.is_set() and time.time() < t_end:
                 if kind == "stream-flood":
                     with dev.rxlock:
                         backlog = len(dev.rx)
@@ -133,10 +134,14 @@ def hostile_devices(run):
                     else:
                         time.sleep(0.0005)
                 else:
-                    if state["babble"]:
-                        dev.push(aframe)
-                        n += 1
-                    time.sleep(0.0003)
+                    with dev.rxlock:
+                        backlog = len(dev.rx)
+                    if state["babble"] and backlog < 40:
+                        for _ in range(40):          # never a quiet period: the next frame is always there
+                            dev.push(aframe)
+                        n += 40
+                    else:
+                        time.sleep(0.0002)
         th = threading.Thread(target=talker, daemon=True)
         th.start()
         comm = CommHandler(dev, Parser())
@@ -181,7 +186,7 @@ def main(run):
     if model_ok:
         for what, c, m in run.differential(cases(run)):
             run.violation(what, {"call": c["cmd"][:2000], "implementation": c["impl"][:2000], "model": m[:2000]})
-        if not run.violations:
+        if not run.concrete():
             for what, detail in hostile_devices(run):
                 run.violation(what, detail)
     else:
